@@ -189,7 +189,7 @@ func (te *TypeEnv) Zero(t types.Type) Term {
 	case SBool:
 		return tFalse
 	case SStr:
-		return Term{"str.empty", SStr}
+		return Term{"s_empty", SStr}
 	case SSlice:
 		return Term{"(mkSlice 0 0 0 0)", SSlice}
 	case SIface:
